@@ -180,7 +180,10 @@ impl Run {
 
 	async fn released(&mut self, what: &str, extra: Result<(), String>) -> Res {
 		let a = self.env.wait_avail(self.expected_avail()).await;
-		let orc = extra.and(self.avail_ok(a, what));
+		let orc = match (extra, self.avail_ok(a, what)) {
+			(Err(e1), Err(e2)) => Err(format!("{e2}; {e1}")),
+			(e1, e2) => e1.and(e2),
+		};
 		(format!("released {}", a_repr(a)), orc)
 	}
 
@@ -416,6 +419,7 @@ async fn run_case(lines: &[String], out: &mut Out) -> bool {
 	let mut ended = false;
 	let mut peak = 0usize;
 	let mut failed = false;
+	let mut sig = lines[0].splitn(3, ' ').nth(2).unwrap_or("").to_string();
 	for l in &lines[1..] {
 		if failed {
 			// after the first oracle failure the rest of the case says nothing new and every further
@@ -437,14 +441,23 @@ async fn run_case(lines: &[String], out: &mut Out) -> bool {
 		if kind == "refused" && h.max > 0 {
 			out.count("refused.at_positive_limit");
 		}
-		let nontrivial = kind != "noop" && kind != "bad-op";
+		// distinctness is counted per HISTORY (configuration + script + outcomes), see below
+		if kind != "noop" && kind != "bad-op" {
+			sig.push_str(l);
+			sig.push('>');
+			sig.push_str(&o);
+			sig.push(';');
+		}
 		failed = orc.is_err();
-		out.line(l.clone(), o, orc, nontrivial);
+		out.line(l.clone(), o, orc, false);
 		if w[1] == "end" {
 			ended = true;
 		}
 	}
 	out.count(&format!("case.peak_live={peak}"));
+	if peak > 0 {
+		out.nontrivial.insert(fxhash(sig.as_bytes()));
+	}
 	if !ended || failed {
 		// replay files without `cg end` / aborted cases: still stop the server
 		let _ = run.cleanup().await;
